@@ -112,3 +112,11 @@ W.special = {}
 _P = 'pyformlang/pda/pda.py'
 TARGETS = {'fn.get_next_free[State]': (_P, 'fn.get_next_free'), 'fn.get_next_free[StackSymbol]': (_P, 'fn.get_next_free'),
            'PDA.to_final_state': (_P, 'PDA.to_final_state'), 'PDA.to_empty_stack': (_P, 'PDA.to_empty_stack')}
+
+_PP = 'pyformlang/pda/pda.py'
+SMOKE = [
+    ('PDA.to_final_state', _PP, "                              self._start_state, [self._start_stack_symbol,\n                                                  new_stack_symbol])\n        for state in self._states:", "                              self._start_state, [new_stack_symbol,\n                                                  self._start_stack_symbol])\n        for state in self._states:", 'break'),
+    ('PDA.to_empty_stack', _PP, "        for stack_symbol in new_stack_alphabet:\n            new_tf.add_transition(new_end, Epsilon(), stack_symbol,", "        for stack_symbol in self._stack_alphabet:\n            new_tf.add_transition(new_end, Epsilon(), stack_symbol,", 'break'),
+    ('PDA.to_empty_stack', _PP, '        new_end = get_next_free("#ENDEMPTYS#", State, self._states)', '        new_end = get_next_free("#STARTEMPTYS#", State, self._states)', 'break'),
+    ('fn.get_next_free[State]', _PP, "    while new_var in to_check:", "    while new_var not in to_check and idx < 0:", 'break'),
+]
